@@ -4,9 +4,10 @@
    and about the regenerated table of boundary-crossing sites; aliasing inside
    the standard library and the protobuf runtime is outside the model.
    Statements only; proofs in proofs/HeapProofs.v, proofs/HeapProofs2.v,
-   proofs/AliasSitesProofs.v. *)
+   proofs/AliasSitesProofs.v, proofs/HeapProgProofs.v, proofs/AliasBodiesProofs.v. *)
 From Coq Require Import List NArith Arith Bool.
 From Tink Require Import Heap HeapProofs HeapProofs2 AliasSites AliasSitesProofs.
+From Tink Require Import HeapProg HeapProgProofs AliasBodies AliasBodiesProofs.
 Import ListNotations.
 
 (* A write through one array never changes what a slice of another array shows. *)
@@ -122,12 +123,12 @@ Theorem C19_undisciplined_programs_refuted :
 Proof. exact undisciplined_programs_refuted. Qed.
 Print Assumptions C19_undisciplined_programs_refuted.
 
-(* THE TIE, second form: every place of the current source where a caller's byte slice or
-   an object's own byte slice meets slices.Concat / bytes.Clone - and every unframed site, if
-   there were one - is emitted by the translator as a program of the slice language (table
-   regenerated on every run; 120 entries at the pinned commit).  Each is disciplined and what
-   it keeps or returns is owned, so the frame theorem applies to every one of them. *)
-Theorem C19_every_site_of_the_source_frames_the_caller :
+(* The copy-site table.  Every place of the current source where a caller's byte slice or an
+   object's own byte slice meets slices.Concat / bytes.Clone is emitted as a ONE-instruction program
+   ([IClone 0 0] or [IConcat [..] 0]).  NOTE: the selection criterion (the site IS a copy) implies
+   the conclusion; this theorem only records that the copy idioms are framed and counts the sites.
+   The tie that says something about the source is the body-level one below. *)
+Theorem C19_every_single_copy_site_is_framed :
   forall pkg fn np prog res, In (pkg, fn, np, prog, res) c19_site_programs ->
   forall h0 params h' vars', List.length params = np ->
     run_strict (h0, params) prog = Some (h', vars') ->
@@ -135,4 +136,96 @@ Theorem C19_every_site_of_the_source_frames_the_caller :
     (forall r, nth_error vars' res = Some r ->
        List.length h0 <= arr r /\ forall s, wf_slice h0 s -> arr s <> arr r).
 Proof. exact every_site_frames_the_caller. Qed.
-Print Assumptions C19_every_site_of_the_source_frames_the_caller.
+Print Assumptions C19_every_single_copy_site_is_framed.
+
+(* ---- FUNCTION BODIES (model/HeapProg.v) ---------------------------------------------------------
+   A structured language for the slice-relevant behaviour of a Go function body: registers holding
+   slices, the operations of model/Heap.v with freely chosen indices/lengths/bytes, opaque callee
+   writes, stores into objects, escapes (return / store in a shared object / kept by a callee),
+   two-way branches, loops with break/continue, early return; an execution may also stop before any
+   statement (panic).  `own_stmt` is the ownership analysis (flags joined with AND at joins, loop
+   heads lowered to a fixpoint). *)
+
+(* THE FRAME THEOREM for bodies: a body that passes the analysis from the flags own0 - on EVERY
+   execution - changes no caller array except those of the parameters flagged in own0, and lets
+   escape only slices living in arrays allocated during the call or in those flagged parameters. *)
+Theorem C19_disciplined_body_frames_the_caller :
+  forall h0 regs own0 prog o h' regs' lg',
+    List.length own0 = List.length regs ->
+    body_disciplined own0 prog = true ->
+    exec (h0, regs, []) prog o (h', regs', lg') ->
+    (forall s, wf_slice h0 s -> ~ In (arr s) (writable regs own0) ->
+       read h' s = read h0 s /\ read_cap h' s = read_cap h0 s) /\
+    (forall r, In r lg' ->
+       (List.length h0 <= arr r /\ forall s, wf_slice h0 s -> arr s <> arr r) \/ In (arr r) (writable regs own0)).
+Proof. exact disciplined_body_frames_the_caller. Qed.
+Print Assumptions C19_disciplined_body_frames_the_caller.
+
+(* the hypotheses are met by a body with a clone, a loop with `continue`, a write and an escape; and
+   each kind of violation (callee write into a parameter, append to a parameter, keeping a parameter)
+   has an execution in which the caller's memory changes / the kept slice is the caller's *)
+Example C19_disciplined_body_example :
+  let h0 := [[1; 2; 3]%N; [9; 9]%N] in
+  let regs := [mkSlice 0 0 3 3; mkSlice 1 0 2 2; mkSlice 0 0 0 0] in
+  let prog := seq [SClone 2 0; SLoop (seq [SSet 2; SIf SJump SSkip]); SEscape 2; SReturn] in
+  body_disciplined [false; false; false] prog = true /\
+  exists h' regs' r, exec (h0, regs, []) prog OReturn (h', regs', [r]) /\ arr r = 2 /\
+    firstn 2 h' = h0 /\ read h' r = [7; 2; 3]%N.
+Proof. exact disciplined_body_example. Qed.
+Print Assumptions C19_disciplined_body_example.
+
+Theorem C19_undisciplined_bodies_refuted :
+  (body_disciplined [false] (SWrite 0) = false /\
+   exists h0 param caller h' regs' lg',
+     exec (h0, [param], []) (SWrite 0) ONormal (h', regs', lg') /\ wf_slice h0 caller /\
+     read_cap h' caller <> read_cap h0 caller) /\
+  (body_disciplined [false; false] (SAppend 1 0) = false /\
+   exists h0 param caller h' regs' lg',
+     exec (h0, [param; param], []) (SAppend 1 0) ONormal (h', regs', lg') /\ wf_slice h0 caller /\
+     read h' caller <> read h0 caller) /\
+  (body_disciplined [false] (SEscape 0) = false /\
+   exists h0 param h' regs' r,
+     exec (h0, [param], []) (SEscape 0) ONormal (h', regs', [r]) /\ wf_slice h0 param /\ arr r = arr param).
+Proof. exact undisciplined_bodies_refuted. Qed.
+Print Assumptions C19_undisciplined_bodies_refuted.
+
+(* THE TIE, body level.  gen/AliasBodies.v (regenerated from /repo on every run) holds the translated
+   body of every function of the library's non-test packages that takes, keeps or returns byte memory
+   - as far as the translator's subset reaches; the others are listed in c19_body_untranslated and are
+   NOT covered - with, at call sites, the effect of the callee (trusted table for callees outside the
+   library; inferred summary, itself an entry of this table, for callees inside).  For EVERY entry:
+   every execution frames the caller up to the parameters flagged in the entry ... *)
+Theorem C19_every_function_body_frames_the_caller :
+  forall e, In e c19_bodies ->
+  forall h0 regs o h' regs' lg', List.length regs = fb_nregs e ->
+    exec (h0, regs, []) (fb_prog e) o (h', regs', lg') ->
+    (forall s, wf_slice h0 s -> ~ In (arr s) (writable regs (fb_flags e)) ->
+       read h' s = read h0 s /\ read_cap h' s = read_cap h0 s) /\
+    (forall r, In r lg' ->
+       (List.length h0 <= arr r /\ forall s, wf_slice h0 s -> arr s <> arr r) \/
+       In (arr r) (writable regs (fb_flags e))).
+Proof. exact every_body_frames_the_caller. Qed.
+Print Assumptions C19_every_function_body_frames_the_caller.
+
+(* ... and an API function (exported function or method of a non-internal package) that is not in the
+   explicit exception list c19_body_exceptions has NO flagged parameter: it changes nothing the caller
+   can see, and whatever it returns or stores lives in memory allocated during the call. *)
+Theorem C19_every_api_function_body_frames_the_caller :
+  forall e, In e c19_bodies -> fb_api e = true -> excepted e = false ->
+  forall h0 regs o h' regs' lg', List.length regs = fb_nregs e ->
+    exec (h0, regs, []) (fb_prog e) o (h', regs', lg') ->
+    (forall s, wf_slice h0 s -> read h' s = read h0 s /\ read_cap h' s = read_cap h0 s) /\
+    (forall r, In r lg' -> List.length h0 <= arr r /\ forall s, wf_slice h0 s -> arr s <> arr r).
+Proof. exact every_api_body_frames_the_caller. Qed.
+Print Assumptions C19_every_api_function_body_frames_the_caller.
+
+(* coverage, as numbers of the regenerated table: considered = translated + untranslated; the table is
+   not trivial (more than 1000 bodies, more than 5000 instructions, fewer than a quarter untranslated) *)
+Theorem C19_body_table_coverage :
+  (List.length c19_bodies = c19_bodies_translated /\
+   c19_bodies_translated + List.length c19_body_untranslated = c19_bodies_considered /\
+   List.length (filter fb_api c19_bodies) = c19_bodies_api) /\
+  (Nat.ltb 1000 c19_bodies_translated = true /\ Nat.ltb 5000 c19_bodies_instructions = true /\
+   Nat.ltb (4 * List.length c19_body_untranslated) c19_bodies_considered = true).
+Proof. exact (conj body_counts_add_up body_table_not_trivial). Qed.
+Print Assumptions C19_body_table_coverage.
